@@ -179,8 +179,14 @@ def e2e_cases(thorough):
     for n_rows, mb in ((6, 2), (6, 3), (6, 6), (8, 2), (9, 3)):
         for variant in range(4 if thorough else 2):
             for task in ('ranking', 'identify_rare_values'):
-                out.append({'n_rows': n_rows, 'minibatch_size': mb, 'variant': variant, 'task': task, 'threshold': 1 + variant % 2})
-                out.append({'n_rows': n_rows, 'minibatch_size': mb, 'variant': variant, 'task': task, 'threshold': 1 + variant % 2, 'via_cli': True})
+                for via_cli in (False, True):
+                    # thresholds below, at and above the mini-batch size; names with and without the (cardinality; coverage) annotation
+                    for thr in ((1 + variant % 2, mb + 2) if task == 'identify_rare_values' else (1,)):
+                        for annotate in (('True', 'False') if task == 'ranking' else ('True',)):
+                            c = {'n_rows': n_rows, 'minibatch_size': mb, 'variant': variant, 'task': task, 'threshold': thr, 'annotate': annotate}
+                            if via_cli:
+                                c['via_cli'] = True
+                            out.append(c)
     return out
 
 
